@@ -3,6 +3,9 @@
   C23 create  <table> <secret> <name> <value> <version> <now> <keyVersion|~>   → ok x…  | ok <ExcName>
   C23 decode  <table> <secret> <name> <value> <maxAge> <now> <minVersion>      → ok ~ | ok x… | ok Uncaught:<Exc>
   C23 keyver  <value>                                                          → ok ~ | ok <int>
+  C23 decode0 …same as decode…   the function as it was BEFORE the surrogate fix (validation of `decodeInUnfixed` only)
+              in create/decode/keyver  <name> is text (code points, lone surrogates allowed: `[cp,…]`);
+              in decode/keyver  <value> is x… (bytes) or text (a `str`, code points, lone surrogates allowed)
   C23 version <value>      C23 pyint <bytes>      C23 b64enc <bytes>      C23 b64dec <bytes>
   C23 tosign2 <keyVersion> <ts> <nameBytes> <b64>
   C23 spec    <issued|~> <secret> <nameBytes> <value> <maxAge> <now> <minVersion>   → ok accept x… | ok reject | ok any
@@ -51,6 +54,12 @@ def decSecret (v : V) : Option Secret :=
   | .list l => (l.mapM decPair).map Secret.dict
   | _ => none
 
+/-- a presented value: `x…` = bytes, text / list of code points = str -/
+def decPyVal (v : V) : Option PyVal :=
+  match v with
+  | .bytes b => some (.bytes (b.map UInt8.toNat))
+  | other => other.cps?.map PyVal.str
+
 def encOut : Out → V
   | .none => .none
   | .some v => V.ofByteNats v
@@ -80,19 +89,24 @@ def handle (toks : List String) : String :=
           let kv? : Option (Option Nat) := if kv.isNone then some none else kv.nat?.map some
           match kv? with
           | some kv =>
-            match create (tableMac t 1) (tableMac t 2) s n v ver now kv with
+            match createIn (tableMac t 1) (tableMac t 2) s n v ver now kv with
             | .ok b => ok [V.ofByteNats b]
             | .raised k => ok [.atom k]
           | none => err "bad-arg"
         | _, _, _, _, _, _ => err "bad-arg"
       | "decode", [t, s, n, v, maxAge, now, minV] =>
-        match decTable t, decSecret s, n.cps?, v.byteNats?, maxAge.int?, now.int?, minV.nat? with
+        match decTable t, decSecret s, n.cps?, decPyVal v, maxAge.int?, now.int?, minV.nat? with
         | some t, some s, some n, some v, some maxAge, some now, some minV =>
-          ok [encOut (decode (tableMac t 1) (tableMac t 2) s n v maxAge now minV)]
+          ok [encOut (decodeIn (tableMac t 1) (tableMac t 2) s n v maxAge now minV)]
+        | _, _, _, _, _, _, _ => err "bad-arg"
+      | "decode0", [t, s, n, v, maxAge, now, minV] =>
+        match decTable t, decSecret s, n.cps?, decPyVal v, maxAge.int?, now.int?, minV.nat? with
+        | some t, some s, some n, some v, some maxAge, some now, some minV =>
+          ok [encOut (decodeInUnfixed (tableMac t 1) (tableMac t 2) s n v maxAge now minV)]
         | _, _, _, _, _, _, _ => err "bad-arg"
       | "keyver", [v] =>
-        match v.byteNats? with
-        | some v => ok [match keyVersionOf v with | some k => .int k | none => .none]
+        match decPyVal v with
+        | some v => ok [match keyVersionIn v with | some k => .int k | none => .none]
         | none => err "bad-arg"
       | "version", [v] =>
         match v.byteNats? with
